@@ -3,6 +3,7 @@
 mod util;
 mod c02;
 mod c03;
+mod c04;
 mod c05;
 mod c06;
 mod c07;
@@ -36,6 +37,8 @@ fn main() {
         ("c02", "run") => c02::run(),
         ("c03", "gen") => c03::gen(seed, thorough),
         ("c03", "run") => c03::run(),
+        ("c04", "gen") => c04::gen(seed, thorough),
+        ("c04", "run") => c04::run(),
         ("c05", "gen") => c05::gen(seed, thorough),
         ("c05", "run") => c05::run(),
         ("c06", "gen") => c06::gen(seed, thorough),
